@@ -864,7 +864,10 @@ class Filter:
         positional_args, keyword_args = self.evaluate_args(context)
         try:
             return func(left, *positional_args, **keyword_args)
-        except TypeError as err:
+        except (TypeError, ValueError, ArithmeticError, LookupError) as err:
+            # Filters are called with arbitrary template data. Don't let Python's
+            # built-in exceptions (OverflowError from `inf | ceil`, ValueError from
+            # `nan | floor`, decimal.InvalidOperation, ..) escape as non-Liquid errors.
             raise LiquidTypeError(str(err), token=self.token) from err
         except LiquidTypeError as err:
             err.token = self.token
@@ -876,7 +879,7 @@ class Filter:
 
         try:
             return func(left, *positional_args, **keyword_args)
-        except TypeError as err:
+        except (TypeError, ValueError, ArithmeticError, LookupError) as err:
             raise LiquidTypeError(f"{self.name}: {err}", token=self.token) from err
         except LiquidTypeError as err:
             err.token = self.token
